@@ -142,6 +142,10 @@ pub mod erased_serde {
         fn serialize<S: crate::serde::Serializer>(&self, serializer: S) -> Result<S::Ok, S::Error> { unimplemented!() } }
     // the JSON tree of a serialisable value, obtained the way GenericBuilder::set_claim does it
     // (erased_serde::serialize into a serde_json byte serializer, then serde_json::from_slice): ASSUMED to be value.json()
+    // Box::new(v) followed by the unsizing coercion to Box<dyn Serialize>: the boxed value is v (ASSUMED only because
+    // Verus loses `erased_json()` through the coercion of a generic T, and mis-handles the coercion next to HashMap::insert)
+    #[verifier::external_body]
+    pub fn box_serialize<'b, T: Serialize + 'b>(v: T) -> (r: Box<dyn Serialize + 'b>) ensures r.erased_json() == v.erased_json() { Box::new(v) }
     #[verifier::external_body]
     pub fn to_json_via_bytes<T: Serialize + ?Sized>(value: &T) -> (r: Value) ensures r == value.erased_json() { unimplemented!() }
     }
